@@ -4,6 +4,7 @@
   thread-spawning macros.  Part 2 (Props/C08.lean, `Lin`): every interleaving of the branch threads.
 -/
 import JoinModel.Props.Common
+import JoinModel.Lemmas.LinLoop
 namespace JoinModel.Props.C03
 open JoinModel JoinModel.Props
 
@@ -41,5 +42,23 @@ theorem generated_steps_in_program_order (σ : World) (parent : Option String) (
     (keysOf (evalCode σ parent code).trace).Pairwise (· ≤ ·) := by
   rw [generated_eq_reference σ parent p kind code hs hgen, (run_trace_no_handler σ parent p kind hh).1]
   exact steps_in_program_order σ parent p kind
+
+/-- **The step barrier under every schedule, for the whole run.**  Take any global order `t` of the events of a macro
+    invocation's step loop that respects what threads guarantee (`Lin`: the caller's events in program order, each
+    forked chain's events in its own order after its fork, a join only once the joined thread has finished — nothing
+    else): the step numbers along `t` never decrease.  So no operand, callback or block capture of step k+1 is evaluated
+    before every chain of step k has finished, for thread-spawning macros under *all* interleavings of the sibling
+    threads (and trivially for the sequential ones), for every program, world and size, also when something panics. -/
+theorem barrier_every_schedule (σ : World) (parent : Option String) (p : Input) (kind : Kind) (t : List TEv)
+    (h : Lin (loopOf σ parent p kind).trace [] t) : (tsteps t).Pairwise (· ≤ ·) :=
+  (loop_every_schedule (cfgFor σ parent p kind)
+    (fun _ => List.Nodup.sublist List.filter_sublist List.nodup_range) _ 0 _ t h).1
+
+/-- the hypothesis is satisfiable: the empty schedule of an empty trace, and a two-thread step in both orders -/
+example : Lin [.fork 0 0 "a" [.chainStart 0 0], .fork 1 0 "b" [.chainStart 1 0], .join 0 0, .join 1 0] []
+    [⟨some (1, 0), .chainStart 1 0⟩, ⟨some (0, 0), .chainStart 0 0⟩] := by
+  apply Lin.fork; apply Lin.fork
+  exact Lin.thr _ [((0, 0), [.chainStart 0 0])] [] (1, 0) _ [] _
+    (Lin.thr _ [] [((1, 0), [])] (0, 0) _ [] _ (Lin.join 0 0 _ [] [((1, 0), [])] _ (Lin.join 1 0 _ [] [] _ (Lin.done _))))
 
 end JoinModel.Props.C03
